@@ -11,9 +11,9 @@ if [ ! -d $ISO/repo ]; then git -C /repo worktree add -q --detach $ISO/repo HEAD
 git -C $ISO/repo checkout -q --detach "$(git -C /repo rev-parse HEAD)" && git -C $ISO/repo reset -q --hard && git -C $ISO/repo clean -fdq -e target
 git -C $ISO/repo apply "$P" 2>/dev/null || git -C $ISO/repo apply -3 "$P" 2>/dev/null || { echo "patch does not apply" >&2; exit 2; }
 mkdir -p $ISO/verif
-rsync -a --delete --exclude target --exclude 'run' --exclude '.build*' /verif/harness /verif/check /verif/known /verif/known_findings.json $ISO/verif/ 2>/dev/null
+rsync -a --delete --exclude target --exclude 'run' --exclude '.build*' /verif/harness /verif/plain /verif/check /verif/known /verif/known_findings.json $ISO/verif/ 2>/dev/null
 mkdir -p $ISO/verif/harness
-sed -i "s#path = \"/repo\"#path = \"$ISO/repo\"#" $ISO/verif/harness/Cargo.toml
+sed -i "s#path = \"/repo\"#path = \"$ISO/repo\"#" $ISO/verif/harness/Cargo.toml $ISO/verif/plain/Cargo.toml
 for id in "$@"; do
   out=$(VERIF_ROOT=$ISO/verif VERIF_EVIDENCE=$ISO/verif/ev-$id.json $ISO/verif/check "$id" ${MODE:-quick} 2>&1); rc=$?
   echo "== $id rc=$rc :: $(echo "$out" | grep -E 'violation:|VIOLATION|BUILD FAILED|WATCHDOG' | head -3 | tr '\n' ' ' | cut -c1-500)"
